@@ -26,6 +26,8 @@ type KubeletOptions struct {
 	Vanish       int // 1-in-N running Pods are removed by the node (force delete by an outside actor)
 	ExitOnDelete int // 1-in-N deleted Pods first report a terminal status of their own (Succeeded/Failed) before being removed
 	MaxRun       int // seconds (default 15)
+	SlowStart    int // 1-in-N scheduled Pods take 20-70 s before their container starts (slow image pull)
+	TermFlap     int // 1-in-N terminated Pods are reported once more without any container status (node agent restart), then restored
 }
 
 // Fate is the ground truth of what a Pod does, a function of (seed, pod name) only.
@@ -39,6 +41,7 @@ type Fate struct {
 	ExitFirst  string // "" | succ | fail : report this terminal status when deleted, before removal
 	Flap       bool
 	VanishAt   time.Duration // >0: removed externally that long after it started running
+	TermFlap   bool
 }
 
 func (o KubeletOptions) FateOf(name string) Fate {
@@ -79,20 +82,25 @@ func (o KubeletOptions) FateOf(name string) Fate {
 	if o.Vanish > 0 && r.Intn(o.Vanish) == 0 {
 		f.VanishAt = time.Duration(1+r.Intn(5)) * time.Second
 	}
+	if o.SlowStart > 0 && r.Intn(o.SlowStart) == 0 {
+		f.StartDelay = time.Duration(20+r.Intn(50)) * time.Second
+	}
+	f.TermFlap = o.TermFlap > 0 && r.Intn(o.TermFlap) == 0
 	return f
 }
 
 type kubelet struct {
 	w       *World
 	opt     KubeletOptions
-	flapped map[string]int // 0 none, 1 statuses removed, 2 restored
+	flapped map[string]int // 0 none, 1 statuses removed, 2 restored; 11 terminal status wiped, 12 restored
+	saved   map[string]*corev1.PodStatus
 }
 
 func newKubelet(w *World, opt KubeletOptions) *kubelet {
 	if opt.Seed == 0 {
 		opt.Seed = w.Opt.Seed
 	}
-	return &kubelet{w: w, opt: opt, flapped: map[string]int{}}
+	return &kubelet{w: w, opt: opt, flapped: map[string]int{}, saved: map[string]*corev1.PodStatus{}}
 }
 
 func managed(p *corev1.Pod) bool {
@@ -134,7 +142,18 @@ func (k *kubelet) nextAction(p *corev1.Pod) (string, time.Time, bool) {
 		}
 		return "remove", reqAt, true
 	}
+	if k.flapped[p.Name] == 11 {
+		// the terminal status was wiped by a restarting node agent: it is reported again a second later
+		at := k.w.Clk.Now()
+		if st := k.saved[p.Name]; st != nil && len(st.ContainerStatuses) > 0 && st.ContainerStatuses[0].State.Terminated != nil {
+			at = st.ContainerStatuses[0].State.Terminated.FinishedAt.Add(3 * time.Second)
+		}
+		return "termflap", at, true
+	}
 	if terminal {
+		if f.TermFlap && k.flapped[p.Name] < 11 && len(p.Status.ContainerStatuses) > 0 && p.Status.ContainerStatuses[0].State.Terminated != nil {
+			return "termflap", p.Status.ContainerStatuses[0].State.Terminated.FinishedAt.Add(2 * time.Second), true
+		}
 		return "", time.Time{}, false
 	}
 	switch {
@@ -235,6 +254,21 @@ func (k *kubelet) step(nsname string) {
 		} else {
 			k.flapped[p.Name] = 2
 			p.Status.ContainerStatuses = []corev1.ContainerStatus{{Name: "c", State: corev1.ContainerState{Running: &corev1.ContainerStateRunning{StartedAt: *p.Status.StartTime}}}}
+		}
+		_, _ = pods.UpdateStatus(ctx, p, metav1.UpdateOptions{})
+	case "termflap":
+		if k.flapped[p.Name] < 11 {
+			// first the terminal status is remembered and wiped ...
+			k.flapped[p.Name] = 11
+			k.saved[p.Name] = p.Status.DeepCopy()
+			p.Status.Phase = corev1.PodPending
+			p.Status.ContainerStatuses = nil
+		} else {
+			// ... then reported again
+			k.flapped[p.Name] = 12
+			if st := k.saved[p.Name]; st != nil {
+				p.Status = *st
+			}
 		}
 		_, _ = pods.UpdateStatus(ctx, p, metav1.UpdateOptions{})
 	case "finish", "exit-succ", "exit-fail":
